@@ -306,9 +306,38 @@ def run(ctx):
             slots = ctx.rng.choice([1, 2, 3, 5, 8, 13, 32])
             prims = ctx.rng.range(1, 24)
         targets.append((prob, slots, prims, ctx.rng.below(40), ctx.rng.below(1000)))
+    # The coverage guards below must not depend on luck:
+    #  (1) for every few-slot mock target the real harness is asked, now, which `q` cuts DO stop
+    #      where no track is alive while primaries are queued; those are put into its histories;
+    #  (2) three fixed targets from a small corpus, known to show each situation, are always run.
+    qhits = {}
+    for ti, (prob, slots, prims, tid, seed) in enumerate(targets):
+        if prob == "mock" and ti % 8 == 0:
+            cand = list(range(48))
+            lines = ["run prob=mock slots=%d prims=%d order=none script=q1:%d" % (slots, prims, c_)
+                     for c_ in cand]
+            _, qo = _run_lines_retry([exe], lines, env={"CELER_LOG_LOCAL": "critical",
+                                                        "CELER_LOG": "critical"}, timeout=1200)
+            ql = [l_ for l_ in qo if l_.startswith("qcut ")]
+            qhits[ti] = [c_ for c_, l_ in zip(cand, ql) if " hit=1" in l_][:6]
+    n_random = len(targets)
+    FIXED = [
+        # (prob, slots, prims, event, seed, target op, histories)
+        ("mock", 2, 7, 5, 11, "e5:11", [["q3:5"], ["q3:5", "e6:12"], ["w", "q3:5", "a9:3:4"]]),
+        ("mockfield", 8, 10, 5, 11, "e5:11", [["e6:12"], ["a9:3:4"], []]),
+        ("simple", 16, 12, 5, 11, "t5:11:80", [[], ["t1:3:30"], []]),
+    ]
+    for f_ in FIXED:
+        targets.append(f_[:5])
     jobs = []        # (target index, class, cfg, script)
     for ti, (prob, slots, prims, tid, seed) in enumerate(targets):
         base = "prob=%s slots=%d prims=%d" % (prob, slots, prims)
+        if ti >= n_random:
+            _, _, _, _, _, tgt, hists = FIXED[ti - n_random]
+            jobs.append((ti, "reindex", base + " order=none", [tgt]))
+            for order, hist in zip(["shuffle", "status", "steplimit"], hists):
+                jobs.append((ti, "reindex", base + " order=%s timing=0 checker=0" % order, hist + [tgt]))
+            continue
         tgt = ("t%d:%d:%d" % (tid, seed, ctx.rng.range(40, 120))) if prob == "simple" \
             else "e%d:%d" % (tid, seed)
         jobs.append((ti, "reindex", base + " order=none", [tgt]))                 # reference
@@ -320,8 +349,9 @@ def run(ctx):
             # order dependence and a pure history dependence are told apart
             hist = [] if v < len(REINDEX) and v % 2 == 0 else gen_prefix(ctx.rng, tid, prob)
             if ti % 8 == 0 and v % 2 == 1:
-                hist = [h for h in hist if h == "w"] + ["q%d:%d" % (ctx.rng.below(50), ctx.rng.below(1000))] \
-                    + [h for h in hist if h != "w"]
+                qop = ("q1:%d" % ctx.rng.choice(qhits[ti])) if qhits.get(ti) \
+                    else "q%d:%d" % (ctx.rng.below(50), ctx.rng.below(1000))
+                hist = [h for h in hist if h == "w"] + [qop] + [h for h in hist if h != "w"]
             jobs.append((ti, "reindex", cfg, hist + [tgt]))
         jobs.append((ti, "init_charge", base + " order=init_charge", [tgt]))
         for v in range(2 if quick else 5):
@@ -429,7 +459,8 @@ def run(ctx):
         "event_targets": [dict(zip(["prob", "slots", "prims", "event", "seed"], t)) for t in targets],
         "event_runs": len(jobs), "event_comparisons": n_cmp, "event_mismatches": len(failing),
         "families": fam_stats, "step_limit_cuts": qcuts,
-        "controls_that_differ": n_diff_control, "controls": len(targets),
+        "fixed_corpus_targets": len(FIXED), "scanned_q_cuts": {str(k_): v_ for k_, v_ in qhits.items()},
+        "controls_that_differ": n_diff_control, "controls": n_random,
         "samples": [ops[n_corpus], "run " + jobs[1][2] + " script=" + ",".join(jobs[1][3])],
         "correspondence_broken": broken,
     })
